@@ -174,14 +174,9 @@ def OutOk (g : SG) : Op → Out → Prop
   | .fromIndex i, o =>
     ∃ l, NodesOk g l ∧ if i < l.length then ∃ n, o = .nat n ∧ g.node n = true else o = .panic
   | .edgeToIndex a b, o =>
-    -- an edge answers a position below the count, a non-edge panics ("edge not found").  The only freedom
-    -- left: for an undirected edge `{a, b}` with `a ≠ b` the property does not say which of the two
-    -- orientations the numbering accepts, so a panic is tolerated there (the mirror model panics on the
-    -- orientation `all_edges()` does not list: `C03_edge_to_index_exact`, `C03_index_roundtrip`; that an
-    -- edge id handed out by `edges(a)`/`Build::update_edge` is rejected is reported as a candidate defect)
-    if g.hasEdge a b then
-      (∃ i l, o = .nat i ∧ AllEdgesOk g l ∧ i < l.length) ∨ (g.directed = false ∧ a ≠ b ∧ o = .panic)
-    else o = .panic
+    -- an edge (named in either orientation when undirected: `g.w` is symmetric then) answers a position
+    -- below the count, a pair that is not an edge panics ("edge not found"); nothing else is accepted
+    if g.hasEdge a b then ∃ i l, o = .nat i ∧ AllEdgesOk g l ∧ i < l.length else o = .panic
   | .edgeFromIndex i, o =>
     ∃ l, AllEdgesOk g l ∧ if i < l.length then ∃ a b, o = .pair a b ∧ g.hasEdge a b = true else o = .panic
   | .intoGraph, o =>
